@@ -107,6 +107,18 @@ func (w *World) verifyFunc(sel string, con *Contract) *FuncResult {
 			c0.clause = &con.Requires[i]
 			st.assume(ex.safeFormula(c0, con.Requires[i].Text))
 		}
+		for _, ftn := range con.Implements {
+			ft := w.cons["functype "+ftn]
+			if ft == nil {
+				ex.specErrors[fmt.Sprintf("%s:%d: unknown function-type contract %q", con.File, con.Line, ftn)] = true
+				continue
+			}
+			cf := ex.functypeCtx(st, nil, ft, fn, args)
+			for i := range ft.Requires {
+				cf.clause = &ft.Requires[i]
+				st.assume(ex.safeFormula(cf, ft.Requires[i].Text))
+			}
+		}
 		// interface requires are available to implementations too (weaker or equal precondition is checked by impl-pre)
 		ex.entry = st.snapshot()
 		ex.entryPC = len(st.pc)
@@ -211,6 +223,33 @@ func (ex *Exec) checkPost(st *State, results []Value) {
 			lbl = fmt.Sprintf("ensures%d", i+1)
 		}
 		ex.oblige(st, "post", lbl, nil, g, "postcondition: "+cl.Text)
+	}
+	// function-type contracts this function is used as
+	for _, ftn := range ex.con.Implements {
+		ft := ex.w.cons["functype "+ftn]
+		if ft == nil {
+			continue
+		}
+		var args []Value
+		for _, p := range fn.Params {
+			args = append(args, ex.entryBinds[p.Name()].T)
+		}
+		cf := ex.functypeCtx(st, ex.entry, ft, fn, args)
+		for k, v := range c.binds {
+			if strings.HasPrefix(k, "result") {
+				cf.binds[k] = v
+			}
+		}
+		for i := range ft.Ensures {
+			cl := &ft.Ensures[i]
+			cf.clause = cl
+			g := ex.safeFormula(cf, cl.Text)
+			lbl := cl.Label
+			if lbl == "" {
+				lbl = fmt.Sprintf("ensures%d", i+1)
+			}
+			ex.oblige(st, "impl", "functype."+lbl, nil, g, "function-type postcondition ("+ftn+"): "+cl.Text)
+		}
 	}
 	// interface contracts this method implements
 	for _, im := range ex.implemented() {
@@ -401,4 +440,27 @@ func (ex *Exec) typeInv(st *State, t types.Type, v Term) Term {
 		c.pkg = n.Obj().Pkg()
 	}
 	return ex.safeFormula(c, cl.Text)
+}
+
+// functypeCtx binds a function-type contract's parameter names to fn's parameters.
+func (ex *Exec) functypeCtx(st *State, old *State, ft *Contract, fn *ssa.Function, args []Value) *SpecCtx {
+	c := &SpecCtx{ex: ex, st: st, old: old, binds: map[string]TT{}, bound: map[string]string{}, pkg: pkgOf(fn)}
+	if old == nil {
+		c.old = st
+	}
+	for i, p := range fn.Params {
+		if i >= len(args) {
+			break
+		}
+		t, ok := args[i].(Term)
+		if !ok {
+			continue
+		}
+		tt := TT{T: t, Ty: p.Type()}
+		c.binds[fmt.Sprintf("arg%d", i)] = tt
+		if i < len(ft.Names) {
+			c.binds[ft.Names[i]] = tt
+		}
+	}
+	return c
 }
